@@ -84,6 +84,8 @@ def body_dask(case, ctx):
         r.label("all_one_cell_chunks")
     if cross:
         r.label("target_reaches_across_chunk_edge")
+    if case.get("elongated"):
+        r.label("elongated_raster_long_axis_halo_exceeds_short_axis")
     if case.get("edge"):
         r.label("constructed_halo_edge_constellation")
     coords = {"y": ys, "x": xs}
@@ -221,6 +223,37 @@ def edge_cases(draw):
             "scheduler": "synchronous", "func": draw(st.sampled_from(FUNCS)), "res": draw(st.sampled_from([None, "tuple"])), "edge": True}
 
 
+@st.composite
+def elongated_cases(draw):
+    """Elongated rasters with non-square cells: the halo along the LONG axis (in cells) exceeds the length of the SHORT axis while each halo
+    still fits its own axis (the stated domain), chunked along the long axis, sparse targets."""
+    short = draw(st.integers(2, 5))
+    long_ = draw(st.integers(12, 40))
+    cs_long = draw(st.sampled_from([1.0, 0.5, 0.25, 1.1]))
+    cs_short = draw(st.sampled_from([3.0, 4.0, 2.0, 30.1])) * (cs_long if draw(st.booleans()) else 1.0)
+    pad_long = draw(st.integers(short + 1, max(short + 1, min(long_ - 1, 3 * short + 4))))
+    md = (pad_long - draw(st.sampled_from([0.0, 0.25, 0.4]))) * cs_long
+    while int(md / cs_short + 0.5) > short:
+        md *= 0.9
+    wide = draw(st.booleans())           # True: long axis is x
+    h, w = (short, long_) if wide else (long_, short)
+    sy, sx = (cs_short, cs_long) if wide else (cs_long, cs_short)
+    n = h * w
+    flat = [0.0] * n
+    for _ in range(draw(st.integers(1, 3))):
+        flat[draw(st.integers(0, n - 1))] = draw(st.sampled_from([1.0, 2.5, 7.0]))
+    long_chunks = draw(S.chunking(long_))
+    if len(long_chunks) == 1:
+        c = draw(st.integers(1, long_ - 1))
+        long_chunks = [c, long_ - c]
+    short_chunks = draw(st.sampled_from([[short], [short], [1] * short]))
+    return {"sub": "dask", "raster": {"dtype": "float64", "data": [flat[i * w:(i + 1) * w] for i in range(h)]},
+            "y": {"start": 0, "step": sy, "n": h, "desc": draw(st.booleans())}, "x": {"start": 0, "step": sx, "n": w, "desc": False},
+            "metric": draw(st.sampled_from(["EUCLIDEAN", "MANHATTAN"])), "target_values": [], "max_distance": md,
+            "chunks": [short_chunks, long_chunks] if wide else [long_chunks, short_chunks], "scheduler": "synchronous",
+            "func": draw(st.sampled_from(FUNCS)), "res": draw(st.sampled_from([None, "tuple"])), "elongated": True}
+
+
 FIXED = {
     3: [[0, 0, 2.5], [0, 0, 0], [1.5, 0, 0]],
     4: [[0, 0, 0, 3.5], [0, 0, 0, 0], [0, 1.0, 0, 0], [0, 0, 0, "nan"]],
@@ -245,10 +278,12 @@ def enum_cases(n, variant, lo, hi):
 
 def shards(tier):
     out = []
-    nr, per = (9, 14) if tier == "quick" else (12, 400)
+    nr, per = (8, 14) if tier == "quick" else (12, 400)
     side = 8 if tier == "quick" else 10
     for i in range(nr):
         out.append(("rand#%d" % i, lambda ctx: drive_hypothesis(ctx, body_dask, dask_cases(side), per, shrink=(tier == "thorough"))))
+    for i in range(2 if tier == "quick" else 4):
+        out.append(("elongated#%d" % i, lambda ctx: drive_hypothesis(ctx, body_dask, elongated_cases(), per if tier == "quick" else 300, shrink=(tier == "thorough"))))
     for i in range(3 if tier == "quick" else 4):
         out.append(("edge#%d" % i, lambda ctx: drive_hypothesis(ctx, body_dask, edge_cases(), per if tier == "quick" else 300, shrink=(tier == "thorough"))))
     if tier == "quick":
